@@ -420,10 +420,12 @@ impl Command {
             .ignore_then(choice((
                 sub_op2_w_arg(WATCH_REMOVE_SUBCOMMAND, WATCH_REMOVE_SUBCOMMAND_SHORT)
                     .ignore_then(choice((
+                        // an address starts with `0x`: it must be tried before the number,
+                        // which would take the leading `0` and leave `x..` unparsed
+                        watchpoint_at_address(),
                         number()
                             .map(|number: u32| WatchpointIdentity::Number(number))
                             .padded(),
-                        watchpoint_at_address(),
                         watchpoint_at_dqe(),
                     )))
                     .map(|ident| Command::Watchpoint(watch::Command::Remove(ident))),
